@@ -229,6 +229,19 @@ def check_common(c, net, A, directed, D):
     if cl is not None:
         c.cmp("closeness/directed-out-distance" if directed else "closeness/undirected", net.closeness, cl,
               nontrivial=far)
+    # ---- the deprecated key link_attribute="topological" is documented to mean "links have length /
+    #      weight 1" (= None): same definitions
+    T = "topological"
+    c.cmp("path_lengths/deprecated-topological-key", lambda: net.path_lengths(T), D, nontrivial=far)
+    c.cmp("average_path_length/deprecated-topological-key", lambda: net.average_path_length(T),
+          S.average_path_length(D), nontrivial=far)
+    c.cmp("global_efficiency/deprecated-topological-key", lambda: net.global_efficiency(T), S.global_efficiency(D))
+    c.cmp("local_vulnerability/deprecated-topological-key", lambda: net.local_vulnerability(T),
+          S.local_vulnerability(A))
+    if cl is not None:
+        c.cmp("closeness/deprecated-topological-key", lambda: net.closeness(T), cl, nontrivial=far)
+    c.cmp("laplacian/deprecated-topological-key", lambda: net.laplacian(direction="out", link_attribute=T),
+          S.laplacian(A, directed, "out"))
     # ---- coreness
     c.cmp("coreness/peeling", net.coreness, S.coreness(A, directed))
     # ---- pagerank (up to scale), graphs where every node reaches every other
@@ -237,6 +250,12 @@ def check_common(c, net, A, directed, D):
             x = np.asarray(net.pagerank(), dtype=float)
             return x / x.sum()
         c.cmp("pagerank/stationary", pr, S.pagerank(A), tol="linalg",
+              nontrivial=len(set(np.round(S.pagerank(A), 9))) > 1)
+
+        def prt():
+            x = np.asarray(net.pagerank("topological"), dtype=float)
+            return x / x.sum()
+        c.cmp("pagerank/deprecated-topological-key", prt, S.pagerank(A), tol="linalg",
               nontrivial=len(set(np.round(S.pagerank(A), 9))) > 1)
     elif all(S.outdegree(A)):
         # not (strongly) connected but no dangling node: the PageRank chain is still irreducible
